@@ -224,7 +224,8 @@ func runVec(rep *Report, v *Vec, rng *rand.Rand) {
 		case "false":
 			return false, nil
 		}
-		return false, errPred
+		// a failing predicate is an error whatever else it returns
+		return rng.Intn(2) == 0, errPred
 	}
 	var node eventlogger.Node
 	switch v.X.Node {
